@@ -21,23 +21,95 @@ fn v(prop: &str, sig: &str, text: String, seed: u64) -> Viol {
     Viol { prop: prop.into(), sig: format!("{}:{}", prop, sig), text: format!("full-queue scenario: {}", text), replay: json!({"kind": "maxbatch", "seed": seed.to_string()}) }
 }
 
-fn drain(st: &Store, tid: &mut Option<i32>) -> bool {
+/// Put a thread (0 = the calling one) on one CPU; for the worker also lower its priority. Used to tilt the race
+/// "does the blocked sender's request arrive while the worker is still collecting its batch" towards yes: with
+/// both on one CPU the sender, woken by the worker's first recv(), usually preempts the low-priority worker.
+fn pin(tid: i32, cpu: usize, low_priority: bool) {
+    unsafe {
+        let mut set: libc::cpu_set_t = std::mem::zeroed();
+        libc::CPU_SET(cpu, &mut set);
+        libc::sched_setaffinity(tid, std::mem::size_of::<libc::cpu_set_t>(), &set);
+        if low_priority {
+            libc::setpriority(libc::PRIO_PROCESS, tid as libc::id_t, 19);
+        }
+    }
+}
+
+fn some_other_cpu() -> Option<usize> {
+    unsafe {
+        let mut set: libc::cpu_set_t = std::mem::zeroed();
+        if libc::sched_getaffinity(0, std::mem::size_of::<libc::cpu_set_t>(), &mut set) != 0 {
+            return None;
+        }
+        let me = libc::sched_getcpu();
+        let cpus: Vec<usize> = (0..libc::CPU_SETSIZE as usize).filter(|c| libc::CPU_ISSET(*c, &set)).collect();
+        if cpus.len() < 2 {
+            return None;
+        }
+        let pos = cpus.iter().position(|c| *c as i32 == me).unwrap_or(0);
+        Some(cpus[(pos + 1) % cpus.len()])
+    }
+}
+
+/// Sizes of the worker's batches as the trace shows them: the write calls between two groups of sync calls.
+pub fn batch_sizes(evs: &[crate::trace::Ev]) -> Vec<u64> {
+    let mut out = vec![];
+    let mut cur = 0u64;
+    for e in evs {
+        if e.role != Role::Worker {
+            continue;
+        }
+        match &e.k {
+            crate::trace::Ek::Write { .. } => cur += 1,
+            crate::trace::Ek::Sync { .. } => {
+                if cur > 0 {
+                    out.push(cur);
+                    cur = 0;
+                }
+            }
+            _ => {}
+        }
+    }
+    if cur > 0 {
+        out.push(cur);
+    }
+    out
+}
+
+enum Drained {
+    Idle,
+    /// the worker sleeps with requests unprocessed (a request was lost): a stable state, see `Settle::Stuck`
+    Stuck(String),
+    No,
+}
+
+fn drain_x(st: &Store, tid: &mut Option<i32>) -> Drained {
     let mut guard = 0u64;
     loop {
         guard += 1;
         match settle_raw(st.rl.as_ref(), tid) {
             Settle::AtGate(t, _) => trace::gate_grant(t, 1),
-            Settle::Idle => return true,
-            Settle::Dead | Settle::Timeout => return false,
+            Settle::Idle => return Drained::Idle,
+            Settle::Stuck(w) => return Drained::Stuck(w),
+            Settle::Dead | Settle::Timeout => return Drained::No,
         }
         if guard > 1_000_000 {
-            return false;
+            return Drained::No;
         }
     }
 }
 
+fn drain(st: &Store, tid: &mut Option<i32>) -> bool {
+    matches!(drain_x(st, tid), Drained::Idle)
+}
+
 /// Returns the violations found (possibly of several properties) and the number of requests that were queued.
 pub fn run_one(seed: u64) -> Result<(Vec<Viol>, u64), String> {
+    run_one_x(seed).map(|(v, q, _)| (v, q))
+}
+
+/// Third result: the largest batch (write calls between syncs) the worker made.
+pub fn run_one_x(seed: u64) -> Result<(Vec<Viol>, u64, u64), String> {
     let mut r = Rng::new(seed);
     let dir = util::fresh_dir("maxbatch");
     let big = r.chance(1, 2); // > 1 MiB of queued data in half of the rounds
@@ -47,6 +119,8 @@ pub fn run_one(seed: u64) -> Result<(Vec<Viol>, u64), String> {
     trace::gate_enable(Role::Worker.bit(), Sk::Write.bit() | Sk::Sync.bit() | Sk::Unlink.bit());
     let mut viols: Vec<Viol> = vec![];
     let mut queued = 0u64;
+    let mut largest = 0u64;
+    let tilt = r.chance(3, 4);
     let res = (|| -> Result<(), String> {
         let mut st = Store::open(&dir, &cfg, 1).map_err(|o| format!("open: {}", o.brief()))?;
         let mut m = Model::new();
@@ -119,9 +193,16 @@ pub fn run_one(seed: u64) -> Result<(Vec<Viol>, u64), String> {
             trace::note(crate::trace::Ek::FlushCall { flush: fid, gend });
             let released = std::sync::atomic::AtomicBool::new(false);
             let mut flush_err = None;
+            let cpu = if tilt { some_other_cpu() } else { None };
+            if let (Some(c), Some(t)) = (cpu, wtid) {
+                pin(t, c, true);
+            }
             std::thread::scope(|sc| {
                 let h = sc.spawn(|| {
                     use raft_log::api::raft_log_writer::RaftLogWriter;
+                    if let Some(c) = cpu {
+                        pin(0, c, false);
+                    }
                     let r = st.rl_mut().flush(Some(crate::store::AckCb::new(fid)));
                     released.store(true, std::sync::atomic::Ordering::SeqCst);
                     r.map_err(|e| e.to_string())
@@ -151,8 +232,16 @@ pub fn run_one(seed: u64) -> Result<(Vec<Viol>, u64), String> {
             }
         }
         // release
-        if !drain(&st, &mut wtid) {
-            return Err("worker did not drain the full queue".into());
+        let mut lost = false;
+        match drain_x(&st, &mut wtid) {
+            Drained::Idle => {}
+            Drained::Stuck(why) => {
+                // the oracles below still apply: nothing moves any more
+                lost = true;
+                let unacked: Vec<u64> = flushes.iter().filter(|f| f.cb && trace::ack_state(f.id).is_none()).map(|f| f.id).collect();
+                viols.push(v("C04", "callback_never_invoked:request_lost_by_the_worker", format!("{} requests were queued behind a parked worker and one more sender was blocked on the full queue; after the release: {}; flush call(s) {:?} with a callback were never acknowledged (no I/O error injected)", queued, why, unacked), seed));
+            }
+            Drained::No => return Err("worker did not drain the full queue".into()),
         }
         // --- C04 on the trace so far
         let tr_now: Trace = {
@@ -161,6 +250,7 @@ pub fn run_one(seed: u64) -> Result<(Vec<Viol>, u64), String> {
             let t = g.as_ref().unwrap();
             Trace { prefix: t.prefix.clone(), paths: t.paths.clone(), path_ix: t.path_ix.clone(), evs: t.evs.clone(), faults: vec![], counters: t.counters, pread_calls: t.pread_calls, pread_bytes: t.pread_bytes, read_calls: t.read_calls }
         };
+        largest = batch_sizes(&tr_now.evs).into_iter().max().unwrap_or(0);
         let dummy = SchedCase { hist: HistCase { seed, hist: 0, cfg: cfg.clone(), steps: vec![], tags: vec![], plan: "C04".into(), create_fault: None }, sched: vec![], faults: vec![], reader_steps: vec![], gate_acks: false };
         let rr = RunRec { trace: tr_now, steps: vec![], flushes: flushes.clone(), models: vec![], recs: vec![], worker_dead: false, faults_fired: 0, completed_steps: 0, stall_points: 0, dir: dir.clone(), final_cfg: cfg.clone(), stop_reason: String::new() };
         let mut s4 = c04::C04Stats::default();
@@ -180,6 +270,11 @@ pub fn run_one(seed: u64) -> Result<(Vec<Viol>, u64), String> {
                 }
                 None => viols.push(v("C11", "files_not_suffix", format!("unexpected chunk file {}", id), seed)),
             }
+        }
+        if lost {
+            // wait_worker_idle() and a joining drop would still work (the channel is empty), but the seq accounting is off:
+            // stop here, the later steps wait for "idle"
+            return Ok(());
         }
         // --- C07: close the chunk, drain the cache, read everything from disk
         let mut k = 0;
@@ -222,7 +317,7 @@ pub fn run_one(seed: u64) -> Result<(Vec<Viol>, u64), String> {
     trace::gate_disable();
     let _ = trace::end();
     util::remove_dir(&dir);
-    res.map(|_| (viols, queued))
+    res.map(|_| (viols, queued, largest))
 }
 
 pub fn run(out: &mut ShardOut, rounds: u64, r: &mut Rng, t_left: &dyn Fn() -> bool) {
@@ -230,9 +325,13 @@ pub fn run(out: &mut ShardOut, rounds: u64, r: &mut Rng, t_left: &dyn Fn() -> bo
         if !t_left() {
             break;
         }
-        match run_one(r.next()) {
-            Ok((vs, q)) => {
+        match run_one_x(r.next()) {
+            Ok((vs, q, largest)) => {
                 out.count("full_queue_rounds", 1);
+                if largest >= 1025 {
+                    out.count("full_queue_rounds_in_which_the_blocked_senders_request_joined_the_full_batch(1025_requests)", 1);
+                }
+                out.tag("full_queue_largest_batch", &largest.to_string());
                 out.count("full_queue_requests_in_flight_at_release", q);
                 for vi in vs {
                     out.viol(vi);
